@@ -2191,7 +2191,10 @@ class ResetIndex(Elemwise):
                     name = self.frame._meta.index.name
                 # replace the projection of the former index with the actual index
                 subs = Projection(self, name)
-                predicate = parent.predicate.substitute(subs, Index(self.frame))
+                # (as a Series, an Index doesn't support everything a column does)
+                predicate = parent.predicate.substitute(
+                    subs, ToSeriesIndex(Index(self.frame))
+                )
                 if self.frame.ndim == 1 and not self.operand("drop"):
                     # the other column of the predicate is the former Series itself
                     subs = Projection(self, self.frame._meta.name)
